@@ -180,7 +180,26 @@ class Ctx:
             ok = False
         if ok:
             self.discharged += len(names)
+        if ok and self.thorough and self.prop not in ("C13", "C14", "C15", "C19"):   # those four run it themselves
+            ok = self.coqchk(relpath) and ok
         return ok
+
+    def coqchk(self, relpath: str, timeout=900) -> bool:
+        """Thorough tier: re-check the compiled closure of a Props file with the independent checker and
+        record the axioms it reports (`-o`)."""
+        mod = "V." + relpath.replace("theories/", "").replace(".v", "").replace("/", ".")
+        cmd = "coqchk -silent -o -Q theories V -Q gen G " + mod
+        rc, out = sh("timeout %d %s" % (timeout, cmd), cwd=self.coq, timeout=timeout + 30)
+        self.checker_cmds.append(cmd)
+        m = re.search(r"\* Axioms:\s*(.*?)(?:\n\s*\n|\n\* |\Z)", out, re.S)
+        axioms = " ".join(m.group(1).split()) if m else "?"
+        self.cov.setdefault("coqchk", {})[mod] = {"rc": rc, "axioms": axioms}
+        if rc != 0:
+            self.broken.append("coqchk does not re-check %s: %s" % (mod, out[-300:]))
+            return False
+        if axioms not in ("<none>", "?") and axioms:
+            self.cov["trusted_extra"] = self.cov.get("trusted_extra", []) + ["coqchk -o axioms for %s: %s" % (mod, axioms)]
+        return True
 
     def coq_eval(self, shards: dict, timeout=900, requires=""):
         """shards: name -> Coq source that ends with Eval/Print commands.
